@@ -157,3 +157,79 @@ Proof.
   intros eps Heps. destruct (exp_series_R r eps Heps) as [N HN]. exists N. intros n Hn.
   specialize (HN n Hn). unfold R_dist in *. rewrite Rminus_0_r, Rabs_minus_sym. exact HN.
 Qed.
+
+(* ---------- an explicit truncation bound:  tail of the real exponential series <= r^(N+1)/(N+1)! * exp r ---------- *)
+Lemma fact_mul_le N k : (fact N * fact k <= fact (N + k))%nat.
+Proof.
+  induction k as [|k IH].
+  - rewrite Nat.add_0_r. cbn [fact]. lia.
+  - replace (N + S k)%nat with (S (N + k)) by lia.
+    change (fact (S (N + k))) with (S (N + k) * fact (N + k))%nat.
+    change (fact (S k)) with (S k * fact k)%nat.
+    assert (H : (S k * (fact N * fact k) <= S (N + k) * fact (N + k))%nat) by (apply Nat.mul_le_mono; lia).
+    lia.
+Qed.
+
+Lemma expq_add_le r N k : 0 <= r -> expq r (N + k) <= expq r N * expq r k.
+Proof.
+  intros Hr. unfold expq. rewrite pow_add.
+  assert (Hp : 0 <= r ^ N * r ^ k) by (apply Rmult_le_pos; apply pow_le; exact Hr).
+  assert (Hi : / INR (fact (N + k)) <= / INR (fact N) * / INR (fact k)).
+  { rewrite <- Rinv_mult, <- mult_INR. apply Rinv_le_contravar.
+    - apply lt_0_INR. pose proof (lt_O_fact N). pose proof (lt_O_fact k). nia.
+    - apply le_INR, fact_mul_le. }
+  replace (/ INR (fact N) * r ^ N * (/ INR (fact k) * r ^ k))
+    with (/ INR (fact N) * / INR (fact k) * (r ^ N * r ^ k)) by ring.
+  apply Rmult_le_compat_r; assumption.
+Qed.
+
+Lemma expq_sum_shift r N k :
+  sum_f_R0 (expq r) (S N + k) - sum_f_R0 (expq r) N = sum_f_R0 (fun j => expq r (S N + j)) k.
+Proof.
+  induction k as [|k IH].
+  - rewrite !Nat.add_0_r. change (sum_f_R0 (expq r) (S N)) with (sum_f_R0 (expq r) N + expq r (S N)).
+    change (sum_f_R0 (fun j => expq r (S N + j)) 0) with (expq r (S N + 0)). rewrite Nat.add_0_r. ring.
+  - replace (S N + S k)%nat with (S (S N + k)) by lia.
+    change (sum_f_R0 (expq r) (S (S N + k))) with (sum_f_R0 (expq r) (S N + k) + expq r (S (S N + k))).
+    change (sum_f_R0 (fun j => expq r (S N + j)) (S k))
+      with (sum_f_R0 (fun j => expq r (S N + j)) k + expq r (S N + S k)).
+    rewrite <- IH. replace (S N + S k)%nat with (S (S N + k)) by lia. ring.
+Qed.
+
+Lemma expq_tail_partial r N k : 0 <= r ->
+  sum_f_R0 (expq r) (S N + k) - sum_f_R0 (expq r) N <= expq r (S N) * exp r.
+Proof.
+  intros Hr. rewrite expq_sum_shift.
+  apply Rle_trans with (sum_f_R0 (fun j => expq r (S N) * expq r j) k).
+  - apply sum_Rle. intros j _. apply expq_add_le, Hr.
+  - rewrite sum_f_R0_scal_l. apply Rmult_le_compat_l.
+    + rewrite <- (Rabs_pos_eq r Hr). apply expq_nonneg.
+    + apply expq_sum_le_exp, Hr.
+Qed.
+
+Lemma expq_tail_bound r N : 0 <= r -> exp r - sum_f_R0 (expq r) N <= expq r (S N) * exp r.
+Proof.
+  intros Hr. apply le_epsilon. intros eps Heps.
+  destruct (exp_series_R r eps Heps) as [M HM].
+  specialize (HM (S N + M)%nat ltac:(lia)). unfold R_dist in HM.
+  pose proof (expq_tail_partial r N M Hr) as T.
+  pose proof (Rle_abs (exp r - sum_f_R0 (expq r) (S N + M))) as A. rewrite Rabs_minus_sym in A. lra.
+Qed.
+
+Lemma exp_series_tail_explicit z N :
+  cabs (csub (cexp z) (cpsum cexp_coeff z N)) <= cabs z ^ S N / INR (fact (S N)) * exp (cabs z).
+Proof.
+  apply Rle_trans with (exp (cabs z) - sum_f_R0 (expq (cabs z)) N); [apply exp_series_tail_lemma|].
+  replace (cabs z ^ S N / INR (fact (S N))) with (expq (cabs z) (S N)) by (unfold expq, Rdiv; ring).
+  apply expq_tail_bound, cabs_nonneg.
+Qed.
+
+(* the explicit bound tends to 0 (standard library: cv_speed_pow_fact) *)
+Lemma exp_explicit_bound_to_0 r : Un_cv (fun N => r ^ S N / INR (fact (S N)) * exp r) 0.
+Proof.
+  replace 0 with (0 * exp r) by ring.
+  apply (CV_mult (fun N => r ^ S N / INR (fact (S N))) (fun _ => exp r) 0 (exp r)).
+  - intros eps Heps. destruct (cv_speed_pow_fact r eps Heps) as [M HM]. exists M. intros n Hn.
+    apply (HM (S n)). lia.
+  - intros eps Heps. exists 0%nat. intros n _. unfold R_dist. rewrite Rminus_diag_eq, Rabs_R0 by reflexivity. exact Heps.
+Qed.
